@@ -9,6 +9,8 @@ the end-to-end `generate; generate(no force)` / existing-tree-differs runs.
 
 Streams of cases (each goes through chk.decide with its own guard map):
   det     document x {PYTHONHASHSEED 0,1,2,random in fresh subprocesses, warm in-process twice, second root}
+  history one spec PATH rewritten in place between warm in-process generations (A -> B -> A) vs fresh-process
+          generations of A and B; non-force run over A's output while the file holds B must fail
   modes   (document, options, prior registry) : force run then non-force rerun; model predicts outcome + files
   e2e     force run, mutate the existing tree, non-force rerun must fail; Diff model on the (abbreviated) trees
   diff    random pairs of small trees in temp dirs -> the real ClientGenerator._show_diffs vs Diff.show_diffs
@@ -82,10 +84,11 @@ def write_spec(text: str, yaml_: bool) -> Path:
     return p
 
 
-def run_generator(spec_text: str, root: Path, *, package: str = "client", core_package: str | None = None,
-                  force: bool = True, seed: str | None = None, yaml_: bool = False) -> Run:
-    """seed=None: in this (warm) interpreter; otherwise a fresh subprocess under PYTHONHASHSEED=seed."""
-    sp = write_spec(spec_text, yaml_)
+def run_generator(spec_text: str | None, root: Path, *, package: str = "client", core_package: str | None = None,
+                  force: bool = True, seed: str | None = None, yaml_: bool = False, spec_path: Path | None = None) -> Run:
+    """seed=None: in this (warm) interpreter; otherwise a fresh subprocess under PYTHONHASHSEED=seed.
+    spec_path: generate from that existing file (the caller owns it) instead of a fresh temporary one."""
+    sp = spec_path if spec_path is not None else write_spec(spec_text or "", yaml_)
     try:
         if seed is None:
             from pyopenapi_gen import generate_client
@@ -130,7 +133,8 @@ def run_generator(spec_text: str, root: Path, *, package: str = "client", core_p
             err = m[0][6:] if m else f"exit {p.returncode}: {p.stderr[-300:]}"
         return Run(ok, err, p.stdout + p.stderr)
     finally:
-        shutil.rmtree(sp.parent, ignore_errors=True)
+        if spec_path is None:
+            shutil.rmtree(sp.parent, ignore_errors=True)
 
 
 def snapshot(root: Path, with_mtime: bool = False) -> dict[str, Any]:
@@ -214,9 +218,12 @@ def gen_schemas(rng, n: int, cycles: bool = False) -> dict:
 
 
 def gen_operation(rng, path: str, method: str, opid: str, schemas: list[str], p_declared: float,
-                  tags_mode: str = "any") -> tuple[dict, list]:
-    """returns (operation node, path-level parameter list contribution)"""
-    vars_ = re.findall(r"{([^}]+)}", path)
+                  tags_mode: str = "any", skip_vars: bool = False, comp_refs: list[str] | None = None,
+                  sse: float = 0.0) -> tuple[dict, list]:
+    """returns (operation node, path-level parameter list contribution).  skip_vars: the path variables are
+    declared at path level; comp_refs: names of components.parameters to reference; sse: probability of a
+    text/event-stream success response (the only thing that puts two plain imports into one module)"""
+    vars_ = [] if skip_vars else re.findall(r"{([^}]+)}", path)
     op: dict[str, Any] = {"operationId": opid}
     if tags_mode == "any":
         r = rng.random()
@@ -236,6 +243,8 @@ def gen_operation(rng, path: str, method: str, opid: str, schemas: list[str], p_
         params.append({"name": nm, "in": "query", "required": rng.random() < 0.3, "schema": sch})
     if rng.random() < 0.2:
         params.append({"name": "X-Trace-Id", "in": "header", "required": False, "schema": {"type": "string"}})
+    for ref in comp_refs or []:
+        params.append({"$ref": f"#/components/parameters/{ref}"})
     rng.shuffle(params)
     if params:
         op["parameters"] = params
@@ -254,7 +263,10 @@ def gen_operation(rng, path: str, method: str, opid: str, schemas: list[str], p_
         op["requestBody"] = {"required": rng.random() < 0.7, "content": body}
     resps: dict[str, Any] = {}
     r = rng.random()
-    if r < 0.25:
+    if rng.random() < sse:
+        resps["200"] = {"description": "event stream",
+                        "content": {"text/event-stream": {"schema": rng.choice([{"type": "string"}, {"type": "object", "properties": {"msg": {"type": "string"}}}])}}}
+    elif r < 0.25:
         resps["204"] = {"description": "no content"}
     else:
         code = "201" if method == "post" and rng.random() < 0.5 else "200"
@@ -276,29 +288,66 @@ def gen_operation(rng, path: str, method: str, opid: str, schemas: list[str], p_
     return op, []
 
 
+COMPONENT_PARAMS = {
+    # inline complex schemas: the parser promotes them to models named after the operation that uses them
+    "Filter": {"name": "filter", "in": "query", "style": "deepObject", "explode": True,
+               "schema": {"type": "object", "properties": {"status": {"type": "string"}, "min_age": {"type": "integer"}}}},
+    "Sort": {"name": "sort", "in": "query",
+             "schema": {"type": "array", "items": {"type": "string", "enum": ["name", "-name", "created"]}}},
+    "PageSize": {"name": "page_size", "in": "query", "schema": {"type": "integer"}},
+}
+
+
 def gen_spec(rng, *, p_declared: float = 0.85, cycles: bool = False, collide: float = 0.0,
-             tags_mode: str = "any", n_paths: tuple[int, int] = (1, 4)) -> dict:
+             tags_mode: str = "any", n_paths: tuple[int, int] = (1, 4), shared_params: float = 0.0,
+             path_level: float = 0.0, sse: float = 0.0) -> dict:
+    """shared_params: probability that the document has components.parameters (with inline object / array-of-inline-enum
+    schemas) referenced from operations of at least two different paths; path_level: probability per path (with
+    template variables) that the variables and a header are declared as path-level `parameters`"""
     schemas = gen_schemas(rng, rng.randint(0, 4), cycles=cycles)
     names = list(schemas)
     paths: dict[str, Any] = {}
     k = 0
     used_ids: list[str] = []
-    for path in rng.sample(PATH_POOL, rng.randint(*n_paths)):
+    use_shared = rng.random() < shared_params
+    if use_shared:
+        n_paths = (max(2, n_paths[0]), max(2, n_paths[1]))
+    chosen = rng.sample(PATH_POOL, rng.randint(*n_paths))
+    for pi, path in enumerate(chosen):
         item: dict[str, Any] = {}
-        for method in rng.sample(["get", "post", "put", "delete"], rng.randint(1, 2)):
+        vars_ = re.findall(r"{([^}]+)}", path)
+        plevel = bool(vars_) and rng.random() < path_level
+        if plevel:
+            item["parameters"] = [{"name": v, "in": "path", "required": True, "schema": {"type": "integer"}} for v in vars_] + \
+                                 [{"name": "X-Tenant", "in": "header", "required": rng.random() < 0.5, "schema": {"type": "string"}}]
+        for mi, method in enumerate(rng.sample(["get", "post", "put", "delete"], rng.randint(1, 2))):
             k += 1
             if used_ids and rng.random() < collide:
                 opid = rng.choice(used_ids + [u + "_2" for u in used_ids])
             else:
                 opid = rng.choice(["get", "list", "create", "update", "remove", "fetch"]) + rng.choice(
                     ["Pet", "Order", "Thing", "_item", "Owner"]) + (str(k) if rng.random() < 0.7 else "")
+                while opid in used_ids:
+                    opid += "X"
             used_ids.append(opid)
-            op, _ = gen_operation(rng, path, method, opid, names, p_declared, tags_mode)
+            refs: list[str] = []
+            if use_shared:
+                if mi == 0 and pi < 2:
+                    refs = ["Filter", "Sort"] if rng.random() < 0.7 else [rng.choice(["Filter", "Sort"])]
+                elif rng.random() < 0.4:
+                    refs = rng.sample(list(COMPONENT_PARAMS), rng.randint(1, 2))
+            op, _ = gen_operation(rng, path, method, opid, names, p_declared, tags_mode, skip_vars=plevel,
+                                  comp_refs=refs, sse=sse)
             item[method] = op
         paths[path] = item
     d: dict[str, Any] = {"openapi": "3.0.3", "info": {"title": "T", "version": "1.0"}, "paths": paths}
+    comps: dict[str, Any] = {}
     if schemas:
-        d["components"] = {"schemas": schemas}
+        comps["schemas"] = schemas
+    if use_shared:
+        comps["parameters"] = json.loads(json.dumps(COMPONENT_PARAMS))
+    if comps:
+        d["components"] = comps
     return d
 
 
@@ -327,11 +376,13 @@ def abstract_ops(spec: dict) -> list[dict]:
     for path, item in (spec.get("paths") or {}).items():
         if not isinstance(item, dict):
             continue
-        base = [p for p in item.get("parameters", []) if isinstance(p, dict) and "name" in p]
         for method, op in item.items():
             if method.upper() not in ("GET", "POST", "PUT", "DELETE", "PATCH", "HEAD", "OPTIONS", "TRACE") or not isinstance(op, dict):
                 continue
-            ps = base + [p for p in op.get("parameters", []) if isinstance(p, dict) and "name" in p]
+            cp = ((spec.get("components") or {}).get("parameters") or {})
+            raw = list(item.get("parameters", [])) + list(op.get("parameters", []))
+            ps = [cp.get(p["$ref"].split("/")[-1], {}) if isinstance(p, dict) and "$ref" in p else p for p in raw]
+            ps = [p for p in ps if isinstance(p, dict) and "name" in p]
             declared = [[san(p["name"]), bool(p.get("required", False))] for p in ps]
             b = body_param_name(op)
             if b and b not in [d[0] for d in declared]:
@@ -397,8 +448,9 @@ def run_det(spec: dict, extra_seeds: list[str] | None = None, package: str = "cl
                     if not (pa.exists() and pb.exists() and re.search(r"(^|/)endpoints/[^/]+\.py$", rel)):
                         explained = False
                         break
-                    if sorted(pa.read_text().splitlines()) != sorted(pb.read_text().splitlines()):
-                        explained = False
+                    la, lb = pa.read_text().splitlines(), pb.read_text().splitlines()
+                    if sorted(la) != sorted(lb) or any(x != y and re.match(r"\s*(import|from)\s", x + " ") for x, y in zip(la, lb)):
+                        explained = False   # not a pure reordering of per-parameter lines (e.g. import lines moved)
                         break
                 (soft if explained else fails).append(
                     f"files differ between {ref} and {name}: {d[:6]}" + ("" if explained else " (not a parameter-order-only difference)"))
@@ -408,6 +460,61 @@ def run_det(spec: dict, extra_seeds: list[str] | None = None, package: str = "cl
         for r in roots.values():
             shutil.rmtree(r, ignore_errors=True)
         shutil.rmtree(deep.parent.parent, ignore_errors=True)
+
+
+# =====================================================================================================
+# stream history: ONE spec path rewritten between generations in this warm process (A -> B -> A); each result must
+# equal the fresh-process generation of the same document, and a non-force run over A's output once the file holds
+# B must fail.  No model: every failure here is a violation.
+def make_B(spec_a: dict) -> dict:
+    b = json.loads(json.dumps(spec_a))
+    b["paths"]["/history_extra"] = {"get": {"operationId": "historyExtra", "responses": {"200": {"description": "ok"}, "418": {"description": "teapot"}}}}
+    b["info"]["title"] = "T (edited)"
+    return b
+
+
+def run_history_case(inp: dict) -> dict:
+    A, B = inp["A"], make_B(inp["A"])
+    base = new_root("hist_")
+    P = base / "api.json"
+    roots = {n: new_root("hist_") for n in ("freshA", "freshB", "warmA", "warmB", "warmA2")}
+    try:
+        with ThreadPoolExecutor(max_workers=2) as ex:
+            fa = ex.submit(run_generator, json.dumps(A), roots["freshA"], seed="0")
+            fb = ex.submit(run_generator, json.dumps(B), roots["freshB"], seed="0")
+            ra, rb = fa.result(), fb.result()
+        P.write_text(json.dumps(A))
+        w1 = run_generator(None, roots["warmA"], spec_path=P)
+        s_warmA = snapshot(roots["warmA"])
+        P.write_text(json.dumps(B))
+        w2 = run_generator(None, roots["warmB"], spec_path=P)
+        before = snapshot(roots["warmA"], with_mtime=True)
+        stale = run_generator(None, roots["warmA"], spec_path=P, force=False)
+        after = snapshot(roots["warmA"], with_mtime=True)
+        P.write_text(json.dumps(A))
+        w3 = run_generator(None, roots["warmA2"], spec_path=P)
+        sA, sB = snapshot(roots["freshA"]), snapshot(roots["freshB"])
+        fails = []
+        status = {"freshA": ra.ok, "freshB": rb.ok, "warmA": w1.ok, "warmB": w2.ok, "warmA2": w3.ok}
+        for name, snap, ref, okw, okf in (("A (first)", s_warmA, sA, w1.ok, ra.ok), ("B (after A at the same path)", snapshot(roots["warmB"]), sB, w2.ok, rb.ok),
+                                          ("A (after B at the same path)", snapshot(roots["warmA2"]), sA, w3.ok, ra.ok)):
+            if okw != okf:
+                fails.append(f"history: generation of {name} {'succeeded' if okw else 'failed'} in the warm process but not in a fresh one")
+            else:
+                d = sorted(k for k in set(snap) | set(ref) if snap.get(k) != ref.get(k))
+                if d:
+                    fails.append(f"history: output for document {name} differs from a fresh-process generation of the same document: {d[:6]}")
+        common_differs = sorted(k for k in set(sA) & set(sB) if k.endswith(".py") and sA[k] != sB[k])
+        if ra.ok and rb.ok and common_differs and stale.ok:
+            fails.append(f"history: the spec file now holds B, the existing output is A's (common *.py files differ: {common_differs[:4]}), "
+                         f"but the non-force run succeeded")
+        if before != after:
+            fails.append("history: the non-force run modified the existing tree")
+        return {"input": {"kind": "history", **inp}, "obs": {"status": status, "stale_rerun_ok": stale.ok, "common_differs": common_differs[:6]},
+                "oracle_fail": fails}
+    finally:
+        for r in list(roots.values()) + [base]:
+            shutil.rmtree(r, ignore_errors=True)
 
 
 def c_params(ps: list) -> str:
@@ -961,7 +1068,7 @@ def main(chk: Check, replay: dict | None = None) -> int:
         inp = dict(replay["input"])
         kind = inp.pop("kind", None)
         fn = {"modes": run_mode_case, "diff": run_diff_case, "e2e": run_e2e_case, "site1": run_site1_case,
-              "site2": run_site2_case}.get(kind)
+              "site2": run_site2_case, "history": run_history_case}.get(kind)
         if kind == "det":
             r = run_det(inp["spec"])
             r = {"obs": r, "oracle_fail": r["hard"] + r["soft"]}
@@ -984,7 +1091,8 @@ def main(chk: Check, replay: dict | None = None) -> int:
     det_specs = [c["input"]["spec"] for c in corpus if c["input"].get("kind") == "det"]
     n_det = 24 if chk.thorough else 7
     for i in range(n_det):
-        det_specs.append(gen_spec(rng, p_declared=0.9 if i % 3 else 0.5, cycles=(i % 4 == 3), collide=0.15 if i % 5 == 4 else 0.0))
+        det_specs.append(gen_spec(rng, p_declared=0.9 if i % 3 else 0.5, cycles=(i % 4 == 3), collide=0.15 if i % 5 == 4 else 0.0,
+                                  shared_params=0.3, path_level=0.3, sse=0.35))
     det_cases = []
     for spec in det_specs:
         r = run_det(spec, extra_seeds=["3", "4", "5", "17"] if chk.thorough else None)
@@ -1002,6 +1110,14 @@ def main(chk: Check, replay: dict | None = None) -> int:
                    "seed_sensitive": sum(1 for c in det_cases if c["obs"]["differing"]),
                    "files_hashed_per_run": [c["obs"]["n_files"] for c in det_cases][:12]}
     n_eval = len(det_cases)
+
+    # ---------------- history (warm process, one spec path rewritten in place)
+    hist_inputs = [{k: v for k, v in c["input"].items() if k != "kind"} for c in corpus if c["input"].get("kind") == "history"]
+    hist_inputs += [{"A": gen_spec(rng, p_declared=1.0, sse=0.3, path_level=0.3)} for _ in range(6 if chk.thorough else 1)]
+    hist_cases = [run_history_case(i) for i in hist_inputs]
+    chk.decide(hist_cases, None, {}, "history (no model)")
+    dist["history"] = {"cases": len(hist_cases), "stale_rerun_rejected": sum(1 for c in hist_cases if not c["obs"]["stale_rerun_ok"])}
+    n_eval += len(hist_cases)
 
     # ---------------- modes
     mode_inputs = [{k: v for k, v in c["input"].items() if k != "kind"} for c in corpus if c["input"].get("kind") == "modes"]
@@ -1072,7 +1188,7 @@ def main(chk: Check, replay: dict | None = None) -> int:
         dist["site_inventory"] = {"error": str(e)[:300]}
 
     chk.cov["evaluations"] = n_eval
-    allc = det_cases + mode_cases + e2e_cases + diff_cases + s1_cases + s2_cases
+    allc = det_cases + hist_cases + mode_cases + e2e_cases + diff_cases + s1_cases + s2_cases
     nontrivial = set()
     for c in allc:
         k = c["input"]["kind"]
